@@ -7,30 +7,37 @@ namespace Bridge.C05
 /-- a play by a seat that is not on turn is refused -/
 theorem refused_out_of_turn (w : WithHands) (c : Card) (p : Seat) (h : p ≠ w.base.active) :
     w.play c p = .error .turn := by
-  sorry
+  simp [WithHands.play, h]
 
 /-- a play of a card the seat on turn does not hold is refused -/
 theorem refused_not_held (w : WithHands) (c : Card) (p : Seat) (h : c ∉ w.hands p) :
     ∃ e, w.play c p = .error e := by
-  sorry
+  exact play_error_of_not_ok w c p (fun hh => h hh.2)
 
 /-- a play is accepted exactly when it comes from the seat on turn and the card is in that seat's hand;
 then exactly that card leaves that hand (all other hands untouched) and joins the played cards -/
 theorem accepted_iff (w : WithHands) (c : Card) (p : Seat) :
     (∃ w', w.play c p = .ok w') ↔ (p = w.base.active ∧ c ∈ w.hands p) := by
-  sorry
+  constructor
+  · rintro ⟨w', hw⟩
+    obtain ⟨h1, h2, _⟩ := (play_ok_iff w c p w').1 hw
+    exact ⟨h1, h2⟩
+  · rintro ⟨h1, h2⟩
+    exact ⟨_, (play_ok_iff w c p _).2 ⟨h1, h2, rfl⟩⟩
 
 theorem accepted_effect (w w' : WithHands) (c : Card) (p : Seat) (h : w.play c p = .ok w') :
     w'.hands p = (w.hands p).erase c ∧ (∀ q, q ≠ p → w'.hands q = w.hands q) ∧
     w'.base = playCard w.base c ∧ c ∈ w'.base.used := by
-  sorry
+  obtain ⟨_, _, rfl⟩ := (play_ok_iff w c p w').1 h
+  refine ⟨by simp, fun q hq => by simp [hq], rfl, ?_⟩
+  simp only [playCard_used]; exact mem_setAdd c _
 
 /-- a refused play changes nothing: the result carries no state, and a sequence of offers continues from
 the very same state -/
 theorem refusal_changes_nothing (w : WithHands) (c : Card) (p : Seat) (e : PErr)
     (h : w.play c p = .error e) (ops : List (Card × Seat)) :
     runFull w ((c, p) :: ops) = runFull w ops := by
-  sorry
+  simp [runFull, h]
 
 /-- **Conservation.** Start from any deal (pairwise disjoint duplicate-free hands) and offer any sequence
 of plays, legal or not: at all times the remaining hands together with the played cards are a permutation of
@@ -39,14 +46,21 @@ theorem conservation (c : Contract) (hands : Seat → List Card) (w0 : WithHands
     (h0 : WithHands.init c hands = some w0) (hd : IsDeal hands) (ops : List (Card × Seat)) :
     let w := runFull w0 ops
     (allCards w.hands ++ w.base.used).Perm (allCards hands) ∧ IsDeal w.hands := by
-  sorry
+  intro w
+  have hc : CInv (allCards hands) w := cinv_of_init h0 hd ops
+  refine ⟨hc, ?_⟩
+  have hn := cinv_nodup hd hc
+  exact (List.nodup_append.1 hn).1
 
 /-- no card is ever played twice: the played cards are duplicate-free and disjoint from every hand -/
 theorem no_card_twice (c : Contract) (hands : Seat → List Card) (w0 : WithHands)
     (h0 : WithHands.init c hands = some w0) (hd : IsDeal hands) (ops : List (Card × Seat)) :
     let w := runFull w0 ops
     w.base.used.Nodup ∧ ∀ p, ∀ x ∈ w.hands p, x ∉ w.base.used := by
-  sorry
+  intro w
+  have hc : CInv (allCards hands) w := cinv_of_init h0 hd ops
+  have hn := List.nodup_append.1 (cinv_nodup hd hc)
+  refine ⟨hn.2.1, fun p x hx hu => hn.2.2 x (mem_allCards hx) x hu rfl⟩
 
 /-- after 52 accepted plays of a 52-card deal every hand is empty (and play is over) -/
 theorem after_52_all_empty (c : Contract) (hands : Seat → List Card) (w0 : WithHands)
@@ -54,19 +68,43 @@ theorem after_52_all_empty (c : Contract) (hands : Seat → List Card) (w0 : Wit
     (h52 : (allCards hands).length = 52) (ops : List (Card × Seat))
     (hu : (runFull w0 ops).base.used.length = 52) :
     ∀ p, (runFull w0 ops).hands p = [] := by
-  sorry
+  have hc : CInv (allCards hands) (runFull w0 ops) := cinv_of_init h0 hd ops
+  have hl := hc.length_eq
+  rw [List.length_append, hu, h52] at hl
+  have h0' : allCards (runFull w0 ops).hands = [] := List.eq_nil_of_length_eq_zero (by omega)
+  intro p
+  apply List.eq_nil_iff_forall_not_mem.2
+  intro x hx
+  have := mem_allCards hx
+  rw [h0'] at this; cases this
 
 /-- ObservedPlayingPhase: out of turn is refused -/
 theorem observed_refused_out_of_turn (o : Observed) (c : Card) (p : Seat) (h : p ≠ o.base.active) :
     o.play c p = .error .turn := by
-  sorry
+  simp [Observed.play, h]
 
 /-- ObservedPlayingPhase: the observer's own seat, and dummy once its hand is known, can only play cards
 they hold -/
 theorem observed_refused_not_held (o : Observed) (c : Card) (p : Seat) :
     (p = o.me → c ∉ o.hand → ∃ e, o.play c p = .error e) ∧
     (p ≠ o.me → p = o.base.dummy → (∀ dh, o.dummyHand = some dh → c ∉ dh) → ∃ e, o.play c p = .error e) := by
-  sorry
+  constructor
+  · intro h1 h2
+    cases hr : o.play c p with
+    | error e => exact ⟨e, rfl⟩
+    | ok o' =>
+      obtain ⟨_, ⟨_, hc, _⟩ | ⟨hne, _⟩ | ⟨hne, _⟩⟩ := observed_play_ok o o' c p hr
+      · exact absurd hc h2
+      · exact absurd h1 hne
+      · exact absurd h1 hne
+  · intro h1 h2 h3
+    cases hr : o.play c p with
+    | error e => exact ⟨e, rfl⟩
+    | ok o' =>
+      obtain ⟨_, ⟨he, _⟩ | ⟨_, _, dh, hdh, hc, _⟩ | ⟨_, hne, _⟩⟩ := observed_play_ok o o' c p hr
+      · exact absurd he h1
+      · exact absurd hc (h3 dh hdh)
+      · exact absurd h2 hne
 
 /-- ObservedPlayingPhase: an accepted play moves exactly that card out of the known hand it came from -/
 theorem observed_conservation (o o' : Observed) (c : Card) (p : Seat) (h : o.play c p = .ok o') :
@@ -76,7 +114,12 @@ theorem observed_conservation (o o' : Observed) (c : Card) (p : Seat) (h : o.pla
     (p ≠ o.me → p = o.base.dummy →
         ∃ dh, o.dummyHand = some dh ∧ c ∈ dh ∧ o'.dummyHand = some (dh.erase c)) ∧
     (p ≠ o.me → p ≠ o.base.dummy → o'.dummyHand = o.dummyHand) := by
-  sorry
+  obtain ⟨_, ⟨he, hc, rfl⟩ | ⟨hne, hd, dh, hdh, hc, rfl⟩ | ⟨hne, hnd, rfl⟩⟩ := observed_play_ok o o' c p h
+  · exact ⟨rfl, rfl, fun _ => ⟨hc, rfl, rfl⟩, fun h => absurd he h, fun h => absurd he h,
+      fun h => absurd he h⟩
+  · exact ⟨rfl, rfl, fun h => absurd h hne, fun _ => rfl, fun _ _ => ⟨dh, hdh, hc, rfl⟩,
+      fun _ h => absurd hd h⟩
+  · exact ⟨rfl, rfl, fun h => absurd h hne, fun _ => rfl, fun _ h => absurd h hnd, fun _ _ => rfl⟩
 
 /-! ### non-vacuity: a 2-card-per-seat deal; West leads ♣2 (idx 0), North must hold what it plays -/
 def exHands : Seat → List Card
